@@ -24,10 +24,11 @@ ENUMS = [['vlab.tasks_core', 'Color', 'RED'], ['vlab.tasks_core', 'Color', 'GREE
          ['vlab.tasks_core', 'Train.Mode', 'FAST'], ['vlab.tasks_core', 'Train.Mode', 'SLOW'],
          ['vlab.tasks_core', 'Evaluate.Mode', 'FAST'], ['vlab.tasks_core', 'Evaluate.Mode', 'FULL']]
 TASKS = [['vlab.tasks_core', 'VA'], ['vlab.tasks_core', 'VB'], ['vlab.tasks_core', 'VAX'],
-         ['vlab.tasks_alt', 'VA'], ['vlab.tasks_core', 'VJ'], ['vlab.tasks_core', 'VP'], ['vlab.tasks_core', 'VU']]
+         ['vlab.tasks_alt', 'VA'], ['vlab.tasks_core', 'VJ'], ['vlab.tasks_core', 'VP'], ['vlab.tasks_core', 'VU'],
+         ['vlab.tasks_core', 'V\u00c9']]
 KEYS = ['a', 'b', 'k', '', 'é', 'name', 'is_task', 'x.y', '0', 'p']
 UNSUPPORTED = ['set', 'bytes', 'object', 'complex', 'intkey', 'nonekey', 'tuplekey', 'frozenset', 'bytearray',
-               'function', 'type']
+               'function', 'type', 'mixedkey-int', 'mixedkey-none', 'mixedkey-tuple', 'mixedkey-last']
 
 
 def gen_scalar(rng):
@@ -96,6 +97,22 @@ def realize(desc):
     raise ValueError(desc)
 
 
+def pickle_protocols(task):
+    """Protocols 0-2 cannot name a global with a non-ASCII identifier (a limitation of pickle itself, whatever
+    the class is); multiprocessing uses the default protocol (>= 4)."""
+    import pickle
+    lo = 0
+    try:
+        pickle.dumps(task, protocol=0)
+    except pickle.PicklingError as ex:      # the task or a task nested in its parameters has such a type
+        if 'global identifier' not in str(ex):
+            raise
+        lo = 3
+    except Exception:
+        pass                                # judged by the caller's own round trips
+    return range(lo, pickle.HIGHEST_PROTOCOL + 1)
+
+
 def make_task(module, cls, p, q):
     T = getattr(importlib.import_module(module), cls)
     if cls == 'VU':
@@ -109,6 +126,9 @@ def make_unsupported(kind):
         'intkey': lambda: {1: 'a'}, 'nonekey': lambda: {None: 1}, 'tuplekey': lambda: {('a',): 1},
         'frozenset': lambda: frozenset([1]), 'bytearray': lambda: bytearray(b'a'),
         'function': lambda: len, 'type': lambda: int,
+        # one bad key among string keys (the keys of such a dict cannot even be ordered against each other)
+        'mixedkey-int': lambda: {'lr': 0.1, 0: 'layer'}, 'mixedkey-none': lambda: {None: 1, 'a': 2},
+        'mixedkey-tuple': lambda: {'b': 2, ('a',): 1, 'c': 3}, 'mixedkey-last': lambda: {'x': 1, 'y': 2, 3.5: 'z'},
     }[kind]()
 
 
